@@ -205,5 +205,7 @@ void h_run(void) {
   }
   for (int i = 0; i < nfib; i++) fiber_join(f[i], NULL);
   if (rw.state.blob != 0) sim_violation("C07-state-at-rest", "lock word %#lx after every fiber released", (unsigned long)rw.state.blob);
+  fiber_rwlock_destroy(&rw);
+  free(rw_p);
   h_fiber_end();
 }
